@@ -64,48 +64,82 @@ def arms(t):
 
 
 def rule_induction(ctx):
+    """inductive_lemma decided per input shape: the function is evaluated on concrete formulas (sub-formulas opaque) - the accepted shape
+    `forall V (N >= n -> F)` and one representative of every way to miss it - and the decision tree of the result must be the documented one:
+    the pair (base case, inductive step) when V is exactly the free variables of F, the specific refusal otherwise."""
+    from .. import leaves
     fx = ctx.facts
     b = fx.fn("inductive_lemma", impl_self="syntax_tree::fol::sigma_0::Formula")
     site = ctx.site(b)
-    v = sym.Eval(fx, inline_depth=0).function(b)
-    if v[0] != "returns":
-        raise AnalysisGap("inductive_lemma: no early returns found")
-    rets = v[1]
-    final = rets[-1][1]
-    a1 = arms(final)
-    ctx.add("TPL", "induction:outer-shape", final[1] == S and set(a1) == {OUTER_IND, "_"} and a1["_"] == ERR("MalformedInductiveLemma", ("param", "self")), site,
-            "accepted only: forall V (antecedent -> consequent); everything else is MalformedInductiveLemma")
-    a2 = arms(a1.get(OUTER_IND))
-    ctx.add("TPL", "induction:antecedent-shape", a1.get(OUTER_IND, ("",) * 2)[1] == C and set(a2) == {INNER_CMP, "_"} and a2["_"] == ERR("MalformedInductiveLemma", ("param", "self")), site,
-            "the antecedent must be a comparison")
-    a3 = arms(a2.get(INNER_CMP))
-    ctx.add("TPL", "induction:term-shape", a2.get(INNER_CMP, ("",) * 2)[1] == TERM and set(a3) == {"GeneralTerm::IntegerTerm(_)", "_"} and a3["_"] == ERR("MalformedInductiveLemma", ("param", "self")),
-            site, "the compared term must be an integer term")
-    g = a3.get("GeneralTerm::IntegerTerm(_)")
-    a4 = arms(g)
-    ctx.add("TPL", "induction:guard-shape", g is not None and g[1] == ("index", GUARDS, ("lit", 0)) and set(a4) == {GUARD_PAT, "_"} and a4["_"] == ERR("MalformedInductiveLemma", ("param", "self")),
-            site, "the guard must be `>= numeral`: %s" % sorted(a4))
-    ok_arm = a4.get(GUARD_PAT)
+
+    def K(n, **f):
+        return ("ctor", n, tuple(sorted(f.items())))
+    VS, FF, N_, V_ = ("param", "$vs"), ("param", "$F"), ("param", "$n"), ("param", "$v")
+    INT = lambda t: K("GeneralTerm::IntegerTerm", **{"0": t})
+    ivar = INT(K("IntegerTerm::Variable", **{"0": V_}))
+    guard = lambda rel="GreaterEqual", term=None: K("Guard", relation=K("Relation::" + rel), term=term if term is not None else INT(K("IntegerTerm::Numeral", **{"0": N_})))
+    cmp_ = lambda term=ivar, guards=None: K("Formula::AtomicFormula", **{"0": K("AtomicFormula::Comparison", **{"0": K("Comparison", term=term, guards=("list", tuple(guards if guards is not None else [guard()])))})})
+    lemma = lambda lhs=None, conn="Implication", q="Forall": K("Formula::QuantifiedFormula", quantification=K("Quantification", quantifier=K("Quantifier::" + q), variables=VS),
+                                                             formula=K("Formula::BinaryFormula", connective=K("BinaryConnective::" + conn), lhs=lhs if lhs is not None else cmp_(), rhs=FF))
+
+    def run(node):
+        v = sym.Eval(fx, inline_depth=0).function(b, [node])
+        out = []
+        for ts, x in leaves.leaves(leaves.lift(v)):
+            ts = tuple(t for t in ts if t[0] != "survived")
+            out.append((ts, sym.drop_never(leaves.strip_acc(x))))
+        return out
+
+    def err(name, node):
+        return ("ctor", "Result::Err", (("0", ("ctor", "ProofOutlineError::" + name, (("0", node),))),))
+    good = lemma()
+    got = run(good)
+    IV = K("Variable", name=("call", "ToString::to_string", (V_,)), sort=K("Sort::Integer"))
+    IV2 = K("Variable", name=V_, sort=K("Sort::Integer"))
+    mism = ("cond", ("bin", "Eq") + tuple(sorted((leaves.norm(("call", "FromIterator::from_iter", (VS,))), ("call", "Formula::free_variables", (FF,))), key=repr)), False)
+    by = {}
+    for ts, x in got:
+        by.setdefault(ts, []).append(x)
+    refused = by.get((mism,), [])
+    ctx.add("TPL", "induction:refuse:variables-are-free-variables", refused == [err("MalformedInductiveVariables", good)], site,
+            "refused (MalformedInductiveVariables) exactly when the quantified variables are not the free variables of the consequent: %s" % [list(map(str, k_)) for k_ in by])
+    acc = by.get((("cond", mism[1], True),), [])
     pair = None
-    if ok_arm and ok_arm[:2] == ("ctor", "Result::Ok"):
-        fl = ok_arm[2][0][1]
+    if len(acc) == 1 and acc[0][:2] == ("ctor", "Result::Ok"):
+        fl = acc[0][2][0][1]
         if fl[:2] == ("call", "WithWarnings::flawless") and fl[2][0][0] == "list":
             pair = fl[2][0][1]
-    if pair is not None:
-        pair = tuple(sym.drop_never(x) for x in pair)
-    ctx.add("TPL", "induction:base", pair is not None and len(pair) == 2 and pair[0] == sym.drop_never(BASE), site, "base case = universal_closure(F[N := n])", construct=pair[0] if pair else None)
-    ctx.add("TPL", "induction:step", pair is not None and len(pair) == 2 and pair[1] == sym.drop_never(STEP), site, "step = universal_closure((N >= n and F) -> F[N := N + 1])", construct=pair[1] if pair else None)
-    # early refusals
-    pre = ((("arm", S, OUTER_IND), True), (("arm", C, INNER_CMP), True))
-    want = {
-        "one-guard": (pre + ((("bin", "Ne", ("call", "Vec::len", (GUARDS,)), ("lit", 1)), True),), ERR("MalformedInductiveAntecedent", ("param", "self"))),
-        "variables-are-free-variables": (pre + ((("bin", "Ne", ("call", "FromIterator::from_iter", (VARS,)), ("call", "Formula::free_variables", (RHS,))), True),),
-                                         ERR("MalformedInductiveVariables", ("param", "self"))),
-        "integer-variable": (pre + ((("arm", TERM, "_"), True),), ERR("MalformedInductiveTerm", ("param", "self"))),
+
+    def variants(t):
+        # the induction variable may be built from the name directly or from its to_string()
+        return {t, leaves.replace(t, {IV: IV2})}
+    num = INT(K("IntegerTerm::Numeral", **{"0": N_}))
+    base = ("call", "Formula::universal_closure", (("call", "Formula::substitute", (FF, IV, num)),))
+    succ = INT(K("IntegerTerm::BinaryOperation", op=K("BinaryOperator::Add"), lhs=K("IntegerTerm::Variable", **{"0": V_}), rhs=K("IntegerTerm::Numeral", **{"0": ("lit", 1)})))
+    step = ("call", "Formula::universal_closure", (K("Formula::BinaryFormula", connective=K("BinaryConnective::Implication"),
+                                                      lhs=K("Formula::BinaryFormula", connective=K("BinaryConnective::Conjunction"), lhs=cmp_(), rhs=FF),
+                                                      rhs=("call", "Formula::substitute", (FF, IV, succ))),))
+    ctx.add("TPL", "induction:base", pair is not None and len(pair) == 2 and pair[0] in variants(base), site, "base case = universal_closure(F[N := n])", construct=pair[0] if pair else [list(map(str, k_)) for k_ in by])
+    ctx.add("TPL", "induction:step", pair is not None and len(pair) == 2 and pair[1] in variants(step), site, "step = universal_closure((N >= n and F) -> F[N := N + 1])", construct=pair[1] if pair else None)
+    ctx.add("TPL", "induction:refusals", len(by) == 2, site, "on the accepted shape the only refusal is the variable-list test (%d outcomes)" % len(by))
+    # every way to miss the shape is refused, with the documented error
+    bad = {
+        "one-guard": (lemma(lhs=cmp_(guards=[guard(), guard()])), "MalformedInductiveAntecedent"),
+        "integer-variable": (lemma(lhs=cmp_(term=K("GeneralTerm::Variable", **{"0": V_}))), "MalformedInductiveTerm"),
+        "term-shape": (lemma(lhs=cmp_(term=INT(K("IntegerTerm::Numeral", **{"0": ("param", "$m")})))), "MalformedInductiveTerm"),
+        "guard-shape": (lemma(lhs=cmp_(guards=[guard(rel="Greater")])), "MalformedInductiveLemma"),
+        "guard-term": (lemma(lhs=cmp_(guards=[guard(term=K("GeneralTerm::Variable", **{"0": ("param", "$w")}))])), "MalformedInductiveLemma"),
+        "antecedent-shape": (lemma(lhs=K("Formula::AtomicFormula", **{"0": K("AtomicFormula::Atom", **{"0": ("param", "$a")})})), "MalformedInductiveLemma"),
+        "outer-shape": (lemma(conn="Equivalence"), "MalformedInductiveLemma"),
+        "outer-shape:exists": (lemma(q="Exists"), "MalformedInductiveLemma"),
+        "outer-shape:unquantified": (K("Formula::BinaryFormula", connective=K("BinaryConnective::Implication"), lhs=cmp_(), rhs=FF), "MalformedInductiveLemma"),
     }
-    for name, r in want.items():
-        ctx.add("TPL", "induction:refuse:" + name, r in rets[:-1], site, "refusal `%s` present with its condition" % name)
-    ctx.add("TPL", "induction:refusals", len(rets) - 1 == 3, site, "exactly the three documented early refusals (%d)" % (len(rets) - 1))
+    for name, (node, e_) in bad.items():
+        outs = {x for _, x in run(node)}
+        # the variable-list test may come first: a refusal of either kind is a refusal
+        ok = bool(outs) and outs <= {err(e_, node), err("MalformedInductiveVariables", node)} and err(e_, node) in outs
+        ctx.add("TPL", "induction:%s" % (name if ":" in name or name.endswith("shape") or name == "guard-term" else "refuse:" + name), ok, site,
+                "a lemma that misses the shape (%s) is refused with %s: %s" % (name, e_, sorted(sym.pretty(x)[:60] for x in outs)))
 
 
 ATOM = P(("call", "Unbox::unbox", (LHS,)), (AF, "0"), ("AtomicFormula::Atom", "0"))
